@@ -1,4 +1,4 @@
-// Package c03: correspondence ops for C03 (stub, not yet built).
+// Package c03: NodePool limits and static node caps — real code vs Lean model / specification.
 package c03
 
 import (
@@ -8,4 +8,15 @@ import (
 
 func init() { registry.Register("C03", Ops) }
 
-func Ops() []*core.Op { return nil }
+func Ops() []*core.Op {
+	var ops []*core.Op
+	ops = append(ops, poolOps()...)
+	ops = append(ops, limitsOps()...)
+	ops = append(ops, staticOps()...)
+	ops = append(ops, createOps()...)
+	ops = append(ops, driftOps()...)
+	for _, o := range ops {
+		o.Prop = "C03"
+	}
+	return ops
+}
